@@ -1096,7 +1096,7 @@ func runLegacyDo(t *testing.T, run *vt.Run, c vt.CaseID, rng *rand.Rand) {
 // delay from its own goroutine, under the race detector. Order-independent checks only.
 func TestC11Race(t *testing.T) {
 	run := vt.NewRun("C11", "exploration")
-	run.SetRule("concurrent mode under the race detector: calls complete on their own after random virtual delays (some simultaneously); checked: at-most-once calls, result conservation ledger, contexts of unused calls cancelled, results only from successful calls, success only if the criterion holds on the full outcome assignment, error only if the assignment can exceed the tolerance.")
+	run.SetRule("concurrent mode under the race detector: calls complete on their own after random virtual delays (some simultaneously); checked: at-most-once calls, result conservation ledger, contexts of unused calls cancelled, results only from successful calls, success only if the criterion holds on the full outcome assignment, error only if the assignment can exceed the tolerance. Generator release: zone-aware sets with request minimisation where exactly one zone fails at once, so a held-back zone is released while its calls are parked and wake up in parallel.")
 	run.ForEachT(t, "concurrent", vt.N(4000, 80000), func(t *testing.T, c vt.CaseID, rng *rand.Rand, s *vt.Slot) {
 		s.Enter(c, "crash/concurrent")
 		defer s.Leave()
@@ -1110,6 +1110,44 @@ func TestC11Race(t *testing.T) {
 			}
 			delays[in.ID] = time.Duration(rng.IntN(3)) * time.Millisecond
 		}
+		concurrentCase(t, run, c, q, delays)
+	})
+	// zones held back by request minimisation and released while their calls are parked: 3-4 zones, exactly one
+	// zone fails at once (within the tolerance of one zone), the other calls answer at the same virtual instant,
+	// so the waiters of the released zone wake up in parallel with the release itself
+	run.ForEachT(t, "release", vt.N(12000, 200000), func(t *testing.T, c vt.CaseID, rng *rand.Rand, s *vt.Slot) {
+		s.Enter(c, "crash/release")
+		defer s.Leave()
+		q := qcase{Variant: []string{"quorum", "nocancel"}[rng.IntN(2)], ZoneAware: true, MaxUnavailableZones: 1, Minimize: true}
+		nz := 3 + rng.IntN(2)
+		failZone := rng.IntN(nz)
+		q.Outcomes = map[string]int{}
+		delays := map[string]time.Duration{}
+		k := 0
+		for z := 0; z < nz; z++ {
+			for n := 1 + rng.IntN(5); n > 0; n-- {
+				id := fmt.Sprintf("i%d", k)
+				k++
+				q.Instances = append(q.Instances, inst{id, fmt.Sprintf("z%d", z)})
+				if z == failZone {
+					q.Outcomes[id] = oFail
+				}
+				delays[id] = 0
+			}
+		}
+		if rng.IntN(4) == 0 {
+			q.HedgeSeconds = 1
+			for id := range delays {
+				delays[id] = time.Duration(rng.IntN(3)) * time.Millisecond
+			}
+		}
+		concurrentCase(t, run, c, q, delays)
+	})
+	run.Finish(t)
+}
+
+func concurrentCase(t *testing.T, run *vt.Run, c vt.CaseID, q qcase, delays map[string]time.Duration) {
+	{
 		synctest.Test(t, func(t *testing.T) {
 			rs := ring.ReplicationSet{MaxErrors: q.MaxErrors, MaxUnavailableZones: q.MaxUnavailableZones, ZoneAwarenessEnabled: q.ZoneAware}
 			for _, in := range q.Instances {
@@ -1207,6 +1245,5 @@ func TestC11Race(t *testing.T) {
 			}
 			run.EvalH(vt.Hash64(fmt.Sprintf("%+v|%v", q, delays)), len(q.Instances) > 1)
 		})
-	})
-	run.Finish(t)
+	}
 }
